@@ -102,11 +102,19 @@ def run(ctx):
             ctx.violation("R13.2", c.qualname, "find_tag_entry", loc(c.module, c.node), "%s.find_tag_entry vanished" % c.name)
             continue
         ctx.saw(m)
-        sites = [s for s in reg.sites if s.fi is m and key in s.keys]
+        sites = [s.call for s in reg.sites if s.fi is m and key in s.keys]
+        if not sites:
+            # the report built by a helper of the class: the call of the helper is the emission
+            for cl in walk_no_nested(m.node):
+                if isinstance(cl, ast.Call):
+                    for k_, h in cg.resolve_call(cl, m):
+                        if k_ == "precise" and h is not m and any(s.fi is h and key in s.keys for s in reg.sites):
+                            ctx.saw(h)
+                            sites.append(cl)
         ok = bool(sites)
         if ok:
             v = view(ctx, m)
-            sn = v.node(sites[0].call)
+            sn = v.node(sites[0])
             # guarded by a test on the namespace / owning schema, and followed by a return that carries the issues
             g = None
             from sa.dataflow import ReachingDefs as _RD, depends_on as _dep
@@ -282,8 +290,10 @@ def run(ctx):
     vp = view(ctx, pvl)
     appends = [n for (n, c) in vp.calls(lambda c: isinstance(c.func, ast.Attribute) and c.func.attr == "append")]
     ctx.floor("R13.3", "appends in parse_version_list", len(appends), 1)
+    # containers the function records into (the version list itself, or a per-prefix set kept beside it)
+    recorded = {norm(c.func.value) for (n_, c) in vp.calls(lambda c: isinstance(c.func, ast.Attribute) and c.func.attr in ("append", "add"))}
     for a in appends:
-        recv = [norm(c.func.value) for c in vp.node_calls(a) if isinstance(c.func, ast.Attribute) and c.func.attr == "append"]
+        recv = sorted(recorded | {norm(c.func.value) for c in vp.node_calls(a) if isinstance(c.func, ast.Attribute) and c.func.attr == "append"})
         g = vp.guard_for(a, lambda t, recv=recv: any(isinstance(x, ast.Compare) and any(isinstance(o, ast.In) for o in x.ops)
                                                      and norm(x.comparators[0]) in recv for x in ast.walk(t)), want_leave=("raise",))
         ctx.check(g is not None, "R13.3", pvl.qualname, a.ast, loc(pvl, a.ast),
@@ -371,8 +381,29 @@ def run(ctx):
     stores = [n for n in vg.cfg.nodes if n.kind == "stmt" and isinstance(n.ast, ast.Assign) and any(
         isinstance(t, ast.Attribute) and t.attr == "_schemas" for t in n.ast.targets)]
     ctx.floor("R13.3", "group table stores", len(stores), 1)
+    rdg = ReachingDefs(gi)
+
+    def _dedupes(e, at, depth=0):
+        # an expression whose size is the number of DISTINCT prefixes: set(...), a set/dict display keyed by them, or a local bound to one
+        if isinstance(e, (ast.SetComp, ast.DictComp, ast.Set)):
+            return True
+        if isinstance(e, ast.Call) and call_name(e) in ("set", "frozenset", "dict"):
+            return True
+        if isinstance(e, ast.Name) and depth < 3:
+            defs = rdg.at(at, e.id) or []
+            return bool(defs) and all(d.kind == "assign" and d.value is not None and _dedupes(d.value, d.node, depth + 1) for d in defs)
+        return False
+
+    def dup_test(t):
+        for x in ast.walk(t):
+            if isinstance(x, ast.Compare) and len(x.ops) == 1 and not isinstance(x.ops[0], (ast.In, ast.NotIn, ast.Is, ast.IsNot)):
+                sides = [x.left, x.comparators[0]]
+                lens = [y.args[0] for y in sides if isinstance(y, ast.Call) and call_name(y) == "len" and y.args]
+                if len(lens) == 2 and any(_dedupes(y, t) for y in lens) and not all(_dedupes(y, t) for y in lens):
+                    return True
+        return False
     for s in stores:
-        g = vg.guard_for(s, lambda t: mentions(t, "set") and mentions(t, "len"), want_leave=("raise",))
+        g = vg.guard_for(s, dup_test, want_leave=("raise",))
         ctx.check(g is not None, "R13.3", gi.qualname, s.ast, loc(gi, s.ast),
                   "the group's schema table is stored without the duplicate-prefix test and its raise",
                   desc="duplicate prefix refused before the group table is stored")
